@@ -709,7 +709,7 @@ Definition reject_with (fixed : bool) (s : State) : option State :=
   end.
 
 (** The model follows the code of the working tree (see Props/C17.v for the history). *)
-Definition CODE_FIXED : bool := false.
+Definition CODE_FIXED : bool := true.
 Definition do_reject (s : State) : option State := reject_with CODE_FIXED s.
 
 (* ------------------------------------------------------------------------------------------ *)
